@@ -818,6 +818,57 @@ func evalNilRule(c *Ctx, rule string) {
 			if strings.HasPrefix(n, roaringPkg+".") || strings.HasPrefix(n, "(*"+roaringPkg+".Bitmap).") {
 				return typeIs(x.Type(), roaringPkg, "Bitmap")
 			}
+			// a call of a function-typed parameter (`combine(elems...)` with roaring.FastAnd / FastOr passed for it): every
+			// function passed at the call sites must be a roaring constructor/combinator or a module function whose returns are non-nil
+			if fp, isParam := x.Call.Value.(*ssa.Parameter); isParam && depth < 3 {
+				fn := fp.Parent()
+				idx := -1
+				for k, q := range fn.Params {
+					if q == fp {
+						idx = k
+					}
+				}
+				node := c.w.CG.Nodes[fn]
+				if idx < 0 || node == nil || len(node.In) == 0 {
+					return false
+				}
+				for _, e := range node.In {
+					if e.Site == nil || e.Site.Common().StaticCallee() != fn || idx >= len(e.Site.Common().Args) {
+						return false
+					}
+					var g *ssa.Function
+					switch a := peel(e.Site.Common().Args[idx]).(type) {
+					case *ssa.MakeClosure:
+						g, _ = a.Fn.(*ssa.Function)
+					case *ssa.Function:
+						g = a
+					}
+					if g == nil {
+						return false
+					}
+					if c.w.pkgPathOf(g) == roaringPkg && typeIs(x.Type(), roaringPkg, "Bitmap") {
+						continue
+					}
+					if !c.w.inModule(g) || g.Blocks == nil {
+						return false
+					}
+					ok, cnt := true, 0
+					allInstrs(g, func(i ssa.Instruction) {
+						ret, isRet := i.(*ssa.Return)
+						if !isRet || i.Parent() != g || isRecoverBlockReturn(ret) || len(ret.Results) == 0 {
+							return
+						}
+						cnt++
+						if !nonNil(retVals(ret)[0], ret, cmpsAt(ret), depth+1) {
+							ok = false
+						}
+					})
+					if !ok || cnt == 0 {
+						return false
+					}
+				}
+				return true
+			}
 			// a module helper all of whose successful returns are non-nil
 			if h := calleeFunc(&x.Call); h != nil && c.w.inModule(h) && h.Blocks != nil && depth < 3 {
 				ok, n := true, 0
@@ -833,7 +884,76 @@ func evalNilRule(c *Ctx, rule string) {
 				})
 				return ok && n > 0
 			}
+		case *ssa.Parameter:
+			// a helper's parameter: non-nil if it is at every call site (`difference(result, exclude)` returning its first argument)
+			fn := x.Parent()
+			idx := -1
+			for k, q := range fn.Params {
+				if q == x {
+					idx = k
+				}
+			}
+			node := c.w.CG.Nodes[fn]
+			if idx < 0 || node == nil || len(node.In) == 0 || depth >= 3 {
+				return false
+			}
+			for _, e := range node.In {
+				if e.Site == nil || e.Site.Common().StaticCallee() != fn || idx >= len(e.Site.Common().Args) {
+					return false
+				}
+				if !nonNil(e.Site.Common().Args[idx], e.Site, cmpsAt(e.Site), depth+1) {
+					return false
+				}
+			}
+			return true
 		case *ssa.Extract:
+			// the result of calling a function-typed parameter (`evalCached(idx, key, compute)` returning compute()'s bitmap):
+			// non-nil if the successful returns of every function passed for it are
+			if call, ok := x.Tuple.(*ssa.Call); ok && x.Index == 0 {
+				if fp, isParam := call.Call.Value.(*ssa.Parameter); isParam && depth < 3 {
+					fn := fp.Parent()
+					idx := -1
+					for k, q := range fn.Params {
+						if q == fp {
+							idx = k
+						}
+					}
+					node := c.w.CG.Nodes[fn]
+					if idx < 0 || node == nil || len(node.In) == 0 {
+						return false
+					}
+					for _, e := range node.In {
+						if e.Site == nil || e.Site.Common().StaticCallee() != fn || idx >= len(e.Site.Common().Args) {
+							return false
+						}
+						var g *ssa.Function
+						switch a := peel(e.Site.Common().Args[idx]).(type) {
+						case *ssa.MakeClosure:
+							g, _ = a.Fn.(*ssa.Function)
+						case *ssa.Function:
+							g = a
+						}
+						if g == nil || g.Blocks == nil {
+							return false
+						}
+						ok, n := true, 0
+						allInstrs(g, func(i ssa.Instruction) {
+							if i.Parent() != g || !isSuccessReturn(i) {
+								return
+							}
+							n++
+							ret := i.(*ssa.Return)
+							if !nonNil(retVals(ret)[0], ret, cmpsAt(ret), depth+1) {
+								ok = false
+							}
+						})
+						if !ok || n == 0 {
+							return false
+						}
+					}
+					return true
+				}
+			}
 			if call, ok := x.Tuple.(*ssa.Call); ok && x.Index == 0 {
 				// cache hit: Get's bitmap where its found flag is known true
 				if call.Call.IsInvoke() && call.Call.Method.Name() == "Get" && namedOf(call.Call.Value.Type()) == c.a.CacheIface {
@@ -883,7 +1003,24 @@ func evalNilRule(c *Ctx, rule string) {
 		}
 		k := 0
 		allInstrs(ev, func(i ssa.Instruction) {
-			if !isSuccessReturn(i) {
+			if i.Parent() != ev {
+				return // returns of function literals inside eval are judged where their results are used
+			}
+			handsOn := false
+			if ret, isRet := i.(*ssa.Return); isRet && len(ret.Results) == 2 && !isRecoverBlockReturn(ret) {
+				// `return helper(…)`: successful exactly where the helper is; its successful returns are judged in nonNil
+				rv := retVals(ret)
+				if e0, ok := rv[0].(*ssa.Extract); ok && e0.Index == 0 {
+					if e1, ok := rv[1].(*ssa.Extract); ok && e1.Index == 1 && e1.Tuple == e0.Tuple {
+						if call, ok := e0.Tuple.(*ssa.Call); ok {
+							if h := calleeFunc(&call.Call); h != nil && c.w.inModule(h) && h.Blocks != nil {
+								handsOn = true
+							}
+						}
+					}
+				}
+			}
+			if !isSuccessReturn(i) && !handsOn {
 				return
 			}
 			ret := i.(*ssa.Return)
